@@ -184,6 +184,31 @@ def match_propagates(b, d, read_block):
     return all(must_pass_through(b, a, writers) for a in arms)
 
 
+ERROR_DISCARDING = ("ok", "unwrap_or", "unwrap_or_default", "unwrap_or_else", "map_or", "into_iter", "iter", "flat_map", "flatten", "filter_map")
+
+
+def error_discarding_adaptors(F):
+    """Calls that turn an io::Result into a value while dropping the error: `r.ok()`, `r.unwrap_or(..)`, and an io::Result used as
+    an iterator (`flat_map(|_| load(reader))`, `flatten()`, `for x in result`) -- an Err yields nothing and is gone.  The pinned
+    tree has none; a loader or writer built on one reports success for truncated input / a failed write."""
+    out = []
+    for b in F.all_bodies():
+        if "::tests::" in b.name or b.name.startswith("internal::") or any(k[0] == b.name for k in ALLOWED_DISCARDS):
+            continue            # (the two Drop impls discard the error of close() by documented contract, however they spell it)
+        for bi, t in b.calls():
+            cn = callee_name(t)
+            last = cn.split("::")[-1].split("<")[0]
+            if last not in ERROR_DISCARDING:
+                continue
+            ga = t["callee"].get("args") or []
+            on_result = cn.startswith("std::result::Result::<") and len(ga) >= 2 and ga[1] == "std::io::Error"
+            as_iter = any(("std::result::Result<" in a and a.rstrip(">").endswith("std::io::Error")) or a.endswith(", std::io::Error>") for a in ga) and \
+                last in ("into_iter", "iter", "flat_map", "flatten", "filter_map")
+            if on_result or as_iter:
+                out.append((b.name, "%s on %s" % (last, [a[:60] for a in ga[:2]]), loc(t["sp"])))
+    return out
+
+
 def check(ctx):
     configs = ["native"] if ctx.tier == "quick" else ["native", "portable", "native-rel", "portable-rel"]
     for cfg in configs:
@@ -194,6 +219,15 @@ def check(ctx):
 
 
 def check_config(ctx, F, tag, views=True):
+    from core import Relabel
+    if views and not isinstance(ctx, Relabel):
+        # (borrowed) a file cut inside its last element is refused by the map itself: every view constructor bounds what it reads
+        # by map.len(), which counts whole elements only behind this guard (C18.R3)
+        import c18
+        c18.check_config(Relabel(ctx, {"C18.R3.size-multiple-of-8-guard": "C14.R7.map-refuses-a-partial-element"}), F, tag)
+    eda = error_discarding_adaptors(F)
+    ctx.ob("C14.R1.no-error-discarding-adaptor", "crate" + tag, "src/", not eda, "who-may-call",
+           "io::Result turned into a value with the error dropped (ok / unwrap_or* / used as an iterator; count must be 0): %s" % eda[:3], nontrivial=False, positive=True)
     if views:
         import c13
         from core import Relabel
@@ -268,10 +302,17 @@ def check_config(ctx, F, tag, views=True):
                 elif kind == "stmt" and x["s"] == "assign" and x["rv"]["r"] == "use" and operand_place(x["rv"]["o"]) is not None and \
                         any(isinstance(e, dict) and "down" in e for e in operand_place(x["rv"]["o"])["p"]):
                     forms.append("payload of a matched arm")     # the arm was selected by a discriminant test, judged above
+                elif kind == "stmt" and x["s"] == "assign" and x["rv"]["r"] == "agg" and x["rv"].get("agg") in ("adt", "tuple"):
+                    # wrapped (`Some(result)`, a tuple) and handed on: where the wrapper goes is not followed -- undecided, not wrong
+                    forms.append("wrapped in %s" % (x["rv"].get("vname") or x["rv"].get("agg")))
+                    wrapped = True
                 else:
                     forms.append("match/other")
                     okform = False
-            ctx.ob("C14.R1.io-result-propagated", key + tag, where, okform and forms, "consumption-form",
+            if okform and forms and locals().get("wrapped"):
+                okform = None
+            wrapped = False
+            ctx.ob("C14.R1.io-result-propagated", key + tag, where, (okform and bool(forms)) if okform is not None else None, "consumption-form",
                    "io::Result of %s consumed by: %s (allowed: ?, return, map_err, documented unwrap)" % (cname, sorted(set(forms))))
 
         # ---------- R3 break arms
